@@ -120,7 +120,8 @@ Example reject_in_addpre_nonvacuous :
 Proof. vm_compute. repeat split; reflexivity. Qed.
 
 (* What the model also shows (outside C14's words; reported as a defect of the pinned tree, key
-   pipe-start-overtaken-by-reap): nothing orders pipe_reap after *_start_pipe.  A pipe closed by
+   pipe-start-overtaken-by-reap, repaired by /repo 91744d5): nothing in the model orders pipe_reap after
+   *_start_pipe, and nothing in the pinned code did.  A pipe closed by
    another thread right after the closed-check is torn down completely -- protocol pipe_close and
    pipe_stop, statistics unregistered, removed from the socket -- and only THEN handed to the
    protocol's pipe_start (and its statistics registered) by the start thread.  The events are
@@ -151,6 +152,15 @@ Proof.
   destruct (drun_DInv fixmax wide ops _ (dinit_DInv inir maxr)) as (A & B & C & _). auto.
 Qed.
 Print Assumptions dialer_one_pipe.
+
+Example dialer_one_pipe_nonvacuous :
+  (* connect, pipe, pipe lost, timer, redial, failure, timer, redial, second pipe, close with the pipe up *)
+  let ops := [DStart false; DConnDone 0%N 1; DConnCb 0%Z; DPipeRemoved 1 5%Z; DTimerFire; DTimerCb; DConnDone 6%N 0;
+              DConnCb 7%Z; DTimerFire; DTimerCb; DConnDone 0%N 2; DConnCb 0%Z] in
+  let d := drun false false (dialer_init 10 100) ops in
+  d_pipe d = Some 2 /\ tokens d = 1%nat /\ g_att d = 3 /\ g_clash d = false /\
+  tokens (drun false false d [DClose; DPipeRemoved 2 0%Z]) = 0%nat.
+Proof. vm_compute. repeat split; reflexivity. Qed.
 
 (* ------------------------------------------------------------------------------------ *)
 (* 5. DELAY BOUND.  Every delay drawn is non-negative and strictly below the larger of the
@@ -230,8 +240,9 @@ Theorem redial_lowered_max_recovers : forall d v rnd,
 Proof. exact lowered_max_recovers. Qed.
 Print Assumptions redial_lowered_max_recovers.
 
-(* The unconditional statement is FALSE of the tree as it is (replayed on the library: the
-   delays stay below 1000 ms although 10 ms / 0 are configured) and true of the repaired form. *)
+(* The unconditional statement was FALSE of the pinned tree (replayed on the library: the delays
+   stayed below 1000 ms although 10 ms / 0 were configured; repaired by /repo 2107908, after which
+   the flag reads true, the first conjunct is vacuous and [redial_delay_bounded_holds] applies). *)
 Theorem redial_delay_midchange_refuted :
   (C14_RECONNMAX_RESETS = false ->
      hd_error (g_delays (drun C14_RECONNMAX_RESETS C14_BACKOFF_WIDE (dialer_init 10 1000) midchange_run)) = Some (999, 10, 0)%Z) /\
@@ -242,8 +253,8 @@ Proof.
 Qed.
 Print Assumptions redial_delay_midchange_refuted.
 
-(* `d_currtime *= 2` overflows int32 for configured times of 2^30 ms and more (UBSan on the
-   library: "signed integer overflow: 1073741824 * 2"); the repaired form does not *)
+(* `d_currtime *= 2` overflowed int32 for configured times of 2^30 ms and more (UBSan on the pinned
+   library: "signed integer overflow: 1073741824 * 2"); the repaired form (/repo 4a05a49) does not *)
 Theorem redial_backoff_overflow_refuted :
   (C14_BACKOFF_WIDE = false ->
      g_ovf (drun C14_RECONNMAX_RESETS C14_BACKOFF_WIDE (dialer_init 1073741824 2147483647) overflow_run) = true) /\
@@ -353,6 +364,13 @@ Theorem listener_stop_codes_only_by_close_partial : forall ops l,
   forallb lop_ok ops = true -> l = lrun listener_init ops -> g_llost l = false.
 Proof. exact stop_codes_only_after_close. Qed.
 Print Assumptions listener_stop_codes_only_by_close_partial.
+
+Example listener_stop_codes_nonvacuous :
+  let ops := [LoStart; LTran (SrcNego L_ECLOSED); LAccCb; LTimerFire; LTimerCb; LTran (SrcAccept 2%N); LAccCb;
+              LTimerFire; LTimerCb; LTran (SrcMatch 4); LAccCb; LoClose; LAccCb] in
+  forallb lop_ok ops = true /\ g_llost (lrun listener_init ops) = false /\
+  g_lpipes (lrun listener_init ops) = [4] /\ l_closed (lrun listener_init ops) = true.
+Proof. vm_compute. repeat split; reflexivity. Qed.
 
 Theorem listener_econnaborted_stops :
   let l := lrun listener_init [LoStart; LTran (SrcNego L_ECONNABORTED); LAccCb] in
